@@ -26,6 +26,7 @@ CONSTANTS Kind,        \* "counter" | "map" | "list" | "doc"
           MaxBad,      \* invalid calls per replica (0: none)
           MaxRestore,  \* Restore steps per behaviour
           MaxBadUnit,  \* malformed unit deliveries per behaviour
+          RePut,       \* map: TRUE adds "put the value the key already shows" to the calls
           SimMode      \* TRUE only under tlc -simulate: every action draws ONE random argument (RandomElement)
                        \* instead of offering all of them, so a simulation step has one candidate per action
 
@@ -65,6 +66,8 @@ ValidCalls(r, x) ==
     CASE Kind = "counter" -> {[op |-> "inc", d |-> d] : d \in Deltas}
       [] Kind = "map"  -> {[op |-> "put", k |-> k, v |-> Val(r, x.n + 1, 1)] : k \in Keys}
                             \cup {[op |-> "remove", k |-> k] : k \in MLive(x.snap)}
+                            \* writing the value a key already shows: the readable state stays, the entry's timestamp moves
+                            \cup (IF RePut THEN {[op |-> "put", k |-> k, v |-> MGet(x.snap, k)] : k \in MLive(x.snap)} ELSE {})
       [] Kind = "list" -> LET sz == LSize(x.snap) IN
                           {[op |-> "insert", pos |-> p, vals |-> Vals(r, x.n + 1, c)] : p \in 0..sz, c \in 1..MaxBatch}
                             \cup {[op |-> "delete", pos |-> pc[1], n |-> pc[2]] : pc \in {q \in (0..sz) \X (1..MaxBatch) : q[1] + q[2] <= sz}}
